@@ -1,8 +1,8 @@
 #!/bin/bash
 # usage: seedtest.sh <patch.diff> <PROP> [check.py args]  -- applies the patch in the scratch worktree /tmp/mutwt and runs the check against it
 p=$1; prop=$2; shift 2
-cd /tmp/mutwt && git checkout -q -- . && git apply "$p" || { echo "PATCH DOES NOT APPLY"; exit 3; }
-cd /verif && VERIF_REPO=/tmp/mutwt VERIF_SCRATCH=/tmp/mutwork_$prop timeout 1500 python3 tools/check.py $prop "$@" 2>&1 | cut -c1-220 | grep -E "VIOLATION|BROKEN|obligations|INCONCL" | head -8
+cd ${MUTWT:-/tmp/mutwt} && git checkout -q -- . && git apply "$p" || { echo "PATCH DOES NOT APPLY"; exit 3; }
+cd /verif && VERIF_REPO=${MUTWT:-/tmp/mutwt} VERIF_SCRATCH=/tmp/mutwork_$prop timeout 1500 python3 tools/check.py $prop "$@" 2>&1 | cut -c1-220 | grep -E "VIOLATION|BROKEN|obligations|INCONCL" | head -8
 echo "exit=${PIPESTATUS[0]}"
-cd /tmp/mutwt && git checkout -q -- .
+cd ${MUTWT:-/tmp/mutwt} && git checkout -q -- .
 rm -rf /tmp/mutwork_$prop
